@@ -54,6 +54,11 @@ class NoHintsInit:
         self.a, self.b = a, b
     def __eq__(self, o):
         return type(o) is type(self) and vars(o) == vars(self)
+class NoHintsDefaults:
+    def __init__(self, name, retries=3, label="", ratio=0.5, flags=(), when=None):
+        self.name, self.retries, self.label, self.ratio, self.flags, self.when = name, retries, label, ratio, flags, when
+    def __eq__(self, o):
+        return type(o) is type(self) and vars(o) == vars(self)
 @dataclasses.dataclass
 class DC:
     a: int
@@ -80,14 +85,16 @@ LEAVES = ["int", "str", "float", "bool", "bytes", "decimal.Decimal", "datetime.d
           "pathlib.Path", "re.Pattern", "None", "Any", "object", "list", "dict", "tuple", "set", "frozenset",
           "typing.List", "typing.Dict", "typing.Tuple", "typing.Set", "typing.Sequence", "typing.Mapping", "T", "TB", "TC",
           "typing.Callable", "typing.Callable[..., int]", "typing.Callable[[int], str]", "collections.abc.Callable[[int], str]",
-          "type", "type[int]", "typing.Type[DC]", "G", "G[int]", "NoHints", "NoHintsInit", "DC", "E", "NT", "TD",
+          "type", "type[int]", "typing.Type[DC]", "G", "G[int]", "NoHints", "NoHintsInit", "NoHintsDefaults", "DC", "E", "NT", "TD",
           "typing.Literal[1, 'a']", "typing.Iterable", "collections.deque", "AL_NoHints", "AL_listAny", "AL_Lit", "TBN", "NT_NoHints",
           "list[Any]"]
 EXTENDED = {"Any", "object", "list", "dict", "tuple", "set", "frozenset", "typing.List", "typing.Dict", "typing.Tuple",
             "typing.Set", "typing.Sequence", "typing.Mapping", "T", "TB", "TC", "typing.Callable", "typing.Callable[..., int]",
             "typing.Callable[[int], str]", "collections.abc.Callable[[int], str]", "type", "type[int]", "typing.Type[DC]", "G",
-            "G[int]", "NoHints", "NoHintsInit", "typing.Iterable", "collections.deque", "AL_NoHints", "AL_listAny", "AL_Lit", "TBN",
+            "G[int]", "NoHints", "NoHintsInit", "NoHintsDefaults", "typing.Iterable", "collections.deque", "AL_NoHints", "AL_listAny", "AL_Lit", "TBN",
             "NT_NoHints", "list[Any]"}
+# classes without any annotation: the parameters of __init__ are their (unresolvable) members
+HINTLESS = {"NoHintsInit": ["a", "b"], "NoHintsDefaults": ["name", "retries", "label", "ratio", "flags", "when"]}
 PASSTHROUGH = {"Any", "object", "T", "typing.Callable", "typing.Callable[..., int]", "typing.Callable[[int], str]",
                "collections.abc.Callable[[int], str]"}
 UNARY = {
@@ -250,6 +257,35 @@ def check_annotation(expr, col, passthrough=None, nontrivial=False, source="exha
                 if len(got) != len(want) or any(g is not w for g, w in zip(got, want)):
                     col.violation("pass-through", dict(case, direction=direction), f"{direction}({expr}, {xx!r:.60}) = {r!r:.80}: members are not the identical objects",
                                   bucket=f"{ctor}|{direction}|identity")
+    # members of hint-less classes are positions whose type cannot be resolved: identical objects in, identical objects out
+    hl = next((h for h in HINTLESS if expr == h or expr in (f"list[{h}]", f"dict[str, {h}]", f"typing.Optional[{h}]")), None)
+    if hl:
+        n = ns()
+        fields = HINTLESS[hl]
+        objs = [n["Sentinel"]() for _ in fields]
+        wrap_in = (lambda z: [z]) if expr.startswith("list[") else (lambda z: {"k": z}) if expr.startswith("dict[") else (lambda z: z)
+        unwrap_out = (lambda r: r[0]) if expr.startswith("list[") else (lambda r: r["k"]) if expr.startswith("dict[") else (lambda r: r)
+        for direction in ("unmarshal", "marshal"):
+            col.ev()
+            col.label("pass-through-checked")
+            if direction == "unmarshal":
+                k, r = tl.call(tl.unmarshal, T, wrap_in(dict(zip(fields, objs))))
+                read = lambda r: [getattr(unwrap_out(r), f) for f in fields]  # noqa: E731
+            else:
+                k, r = tl.call(tl.marshal, wrap_in(n[hl](*objs)), t=T)
+                read = lambda r: [unwrap_out(r)[f] for f in fields]  # noqa: E731
+            if k == "exc":
+                col.violation("pass-through", dict(case, direction=direction), f"{direction}({expr}) of unresolvable members raised {tl.exc_name(r)}: {r}",
+                              bucket=f"hintless|{direction}|raises")
+                continue
+            try:
+                got = read(r)
+            except Exception as e:  # noqa: BLE001
+                col.violation("pass-through", dict(case, direction=direction), f"{direction}({expr}) returned {r!r:.80}: {e!r}", bucket=f"hintless|{direction}|shape")
+                continue
+            if any(g is not o for g, o in zip(got, objs)):
+                col.violation("pass-through", dict(case, direction=direction), f"{direction}({expr}): members of a hint-less class are not the identical objects: {got!r:.120}",
+                              bucket=f"hintless|{direction}|identity")
     if nontrivial and len(col.samples) < core.MAX_SAMPLES and col.evaluations % 211 == 0:
         col.sample({"annotation": expr, "battery_outcomes": [(a, b, c[0] if isinstance(c, tuple) else c) for a, b, c in b1[:6]]})
 
